@@ -39,12 +39,60 @@ def run(ctx):
         if isinstance(r, dict) and "hv" in r:
             v["what"] = "%s: %s header value %r" % (v["clause"], r.get("t"), bytes(r["hv"]))
     ctx.violations += fbad
+    # the request line: transcribed reference spec/ReqLine.tla (partition meta-property checked by TLC), rows from real connections under 8 option points
+    lmc = vlib.tlc_or_die(ctx, "ReqLineMC", "ReqLineMC.cfg", workers=vlib.NCPU, timeout=1800, xmx="8g")
+    for inv in lmc.violated:
+        ctx.violations.append({"clause": "Model:" + inv, "what": "ReqLine reference violates its own meta-property: " + lmc.out[-1200:], "sites": []})
+    la = 3 if q else 4
+    lshards = [["exh", la, i, n] for i in range(n)] + [["rand", ctx.seed * 11 + i, 1500 if q else 30000] for i in range(4)]
+    lt, ld, lbad, _ = vlib.pattern_f(ctx, "san", "fn_reqline", lshards, "ReqLineRows", "ReqLineRows.cfg", xmx="5g")
+    for v in lbad:
+        r = v.get("row") or {}
+        if isinstance(r, dict) and "in" in r:
+            v["what"] = "%s: request line %r allow_space_uri=%s nul=%s keep=%s" % (v["clause"], bytes(r["in"]), r.get("allow"), r.get("nul"), r.get("keep"))
+    ctx.violations += lbad
+    ft += lt; fd += ld
+    # the status line: spec/ResLine.tla
+    smc = vlib.tlc_or_die(ctx, "ResLineMC", "ResLineMC.cfg", workers=vlib.NCPU, timeout=1800, xmx="8g")
+    for inv in smc.violated:
+        ctx.violations.append({"clause": "Model:" + inv, "what": "ResLine reference violates its own meta-property: " + smc.out[-1200:], "sites": []})
+    sshards = [["exh", la, i, n] for i in range(n)] + [["rand", ctx.seed * 13 + i, 1500 if q else 30000] for i in range(4)]
+    st, sd, sbad, _ = vlib.pattern_f(ctx, "san", "fn_resline", sshards, "ResLineRows", "ResLineRows.cfg", xmx="5g")
+    for v in sbad:
+        r = v.get("row") or {}
+        if isinstance(r, dict) and "in" in r:
+            v["what"] = "%s: status line %r" % (v["clause"], bytes(r["in"]))
+    ctx.violations += sbad
+    ft += st; fd += sd
+    # one header line, request and response side: spec/HdrLine.tla
+    hmc = vlib.tlc_or_die(ctx, "HdrLineMC", "HdrLineMC.cfg", workers=vlib.NCPU, timeout=1800, xmx="8g")
+    for inv in hmc.violated:
+        ctx.violations.append({"clause": "Model:" + inv, "what": "HdrLine reference violates its own meta-property: " + hmc.out[-1200:], "sites": []})
+    hshards = [["exh", la, i, n] for i in range(n)] + [["rand", ctx.seed * 17 + i, 1500 if q else 30000] for i in range(4)]
+    ht, hd, hbad, _ = vlib.pattern_f(ctx, "san", "fn_hdrline", hshards, "HdrLineRows", "HdrLineRows.cfg", xmx="5g")
+    for v in hbad:
+        r = v.get("row") or {}
+        if isinstance(r, dict) and "in" in r:
+            v["what"] = "%s: %s header line %r" % (v["clause"], r.get("side"), bytes(r["in"]))
+    ctx.violations += hbad
+    ft += ht; fd += hd
     vac = None if total >= len(scns) else "judged %d rows for %d generated exchanges" % (total, len(scns))
-    if fd < 5 ** cl:
+    if ld < 8 * 15 ** la * 0.9:
+        vac = "request-line rows: %d distinct < %d declared" % (ld, 8 * 15 ** la)
+    if sd < 20 ** la * 0.9:
+        vac = "status-line rows: %d distinct < %d declared" % (sd, 20 ** la)
+    if hd < 2 * 6 * 11 ** la * 0.9:
+        vac = "header-line rows: %d distinct < %d declared" % (hd, 2 * 6 * 11 ** la)
+    if fd - ld - sd - hd < 5 ** cl:
         vac = "request-field rows: %d distinct < %d declared" % (fd, 5 ** cl)
     vlib.finish(ctx, "model_checking", {
         "states": gen.distinct, "transitions": max(gen.generated, 1), "traces_validated_against_impl": total,
         "evaluations": total + ft, "distinct_nontrivial": distinct + fd, "request_field_rows": ft,
+        "request_lines": "every sequence of <= %d atoms from {GET X /a HTTP/1.1 HTTP/1.0 HTTP/0.9 HTTP/2.0 SP TAB SPSP CR FF '?b c' http://h/p NUL} as a request line under allow_space_uri x Apache (NUL-terminated) / generic x leading whitespace kept or not; "
+                         "method, URI, protocol, 0.9 indicator, protocol number = spec/ReqLine.tla Parse, and the observed components tile the line" % la,
+        "status_lines": "every sequence of <= %d atoms from 20 (protocol spellings, status texts 200 404 0200 99 1000 20x, reasons, SP TAB FF NUL) as the first response line: taken as a status line iff spec/ResLine.tla "
+                        "LooksLikeStatusLine; protocol, status, reason, protocol number, status number = ParseStatusLine; components tile the line" % la,
+        "header_lines": "every line = one of 6 first atoms + <= %d atoms from {X Y-z : SP TAB NUL @ VT v 'a b' ::} as the only header of a request and of a response: name, value, UNPARSEABLE, INVALID = spec/HdrLine.tla" % la,
         "request_fields": "every Cookie value of length <= %d over {a b = ; SP}; Authorization = 9 scheme spellings x every sequence of <= %d atoms from 19 (base64 groups with and without ':', padding, junk, "
                           "username=, quotes, escapes); random values; cookies in order, credentials, auth type, HTP_AUTH_INVALID, stream failure judged against spec/ReqFields.tla" % (cl, al),
         "rule": "exchanges = HtpWire!Exchange(i, n) for %d consecutive indices x n in 1..%d pipelined messages (one production choice per component with co-prime strides: 6 methods, 7 targets incl. absolute "
